@@ -416,6 +416,11 @@ class TensorExpr:
                     derivatives[node] = (node.symbol.diff(s), node.index)
                 elif isinstance(node, TAdd):
                     succ = list(self.ComGraph.successors(node))
+                    terms = [sp.sympify(derivatives[arg][0]) for arg in succ]
+                    nonzero = [term for term in terms if term != 0]
+                    # a number c among matrix terms stands for c*identity, numpy would add it to every entry
+                    if any(term.is_Number for term in nonzero) and not all(term.is_Number for term in nonzero):
+                        raise NotImplementedError(f"Derivative {Add(*terms)} mixes identity-type and matrix-type terms!")
                     derivatives[node] = (Add(*[derivatives[arg][0] for arg in succ]), derivatives[succ[0]][1])
                 elif isinstance(node, TAbs):
                     succ = list(self.ComGraph.successors(node))
